@@ -73,7 +73,12 @@ public:
         void set_key_slice(const key_slice_type slice) { key_slice_ = slice; }
 
         static key_tuple min() { return {0UL, 0}; }
-        static key_tuple max() { return {~0UL, sizeof(key_slice_type) + 1}; }
+        /**
+         * @details The length is larger than that of any stored entry (a link has
+         * sizeof(key_slice_type) + 1), so this is strictly greater than every stored
+         * tuple, including the link entry whose slice is all 0xff.
+         */
+        static key_tuple max() { return {~0UL, sizeof(key_slice_type) + 2}; }
 
     private:
         key_slice_type key_slice_{0};
